@@ -404,7 +404,7 @@ func checkReparse(res *hx.Result, w *world, stream, text string, o *obs) {
 var advValues = []string{
 	`"`, `\`, `a\`, `\\`, `a\\`, `\"`, `"\`, `a"b`, `") OR (name = "x`, `x" OR name = "y`, `" OR id = 1 OR name = "`, `\" OR name = \"y`,
 	"OR", "or", "AND", "and", "has", "is", "(", ")", "()", `("`, `")`, `)"`, " ", "", "  x  ", "a b", "new\nline", "tab\there", "cr\rx",
-	"\U0001F600", "é", "日本", "á", " ", "\u0085", "\x00", "\x7f", "�", "﻿", "­",
+	"\U0001F600", "é", "日本", "a\u0301", "\u00a0", "\u0085", "\x00", "\x7f", "\ufffd", "\ufeff", "\u00ad", "\u2028",
 	"123", "1.5", "1.", ".5", "00", "007.50", "1.2.3", "١٢", "１２", "-1", "+1", "1e5",
 	`\x5c`, `\x5c"`, `\\x5c`, `a\x5c`, `A`, `\n`, `\'`, `'`, "`", "name = x", "name=x", "fields.a = 1", "tel:+1234", "x:y", "a.b:c",
 	"=", "!=", "~", ">", "<=", "@", "a@b.com", "+12065551212", "12-34", "bob", "Bob Smith", "ümlaut", `\\\`, `\\\\`, `\"\`, `"\\`,
